@@ -360,7 +360,13 @@ class Paraxial:
         y1 = Py * EPD / 2
 
         y0, z0 = self._get_object_position(Hy, y1, EPL)
-        u0 = (y1 - y0) / (EPL - z0)
+        if self.optic.object_surface.is_infinite:
+            # (y1 - y0) / (EPL - z0) is 0/0 when the entrance pupil is at
+            # the first surface; the slope is the field angle
+            field_y = self.optic.fields.max_field * Hy
+            u0 = np.tan(np.radians(field_y)) + 0 * y1
+        else:
+            u0 = (y1 - y0) / (EPL - z0)
         rays = ParaxialRays(y0, u0, z0, wavelength)
 
         self.optic.surface_group.trace(rays)
